@@ -417,12 +417,22 @@ func (obj *Package) Remove(name string) (removed bool) {
 	}
 	name = strings.ToLower(name)
 	obj.mu.Lock()
-	if _, has := obj.vars[name]; has {
+	if xv, has := obj.vars[name]; has {
 		delete(obj.vars, name)
 		removed = true
 		for _, u := range obj.Users {
 			if vv := u.vars[name]; vv != nil && vv.Pkg == obj {
 				delete(u.vars, name)
+			}
+		}
+		if xv.Pkg == obj {
+			// The package's own variable hid what the packages it uses
+			// export under that name.
+			for _, p := range obj.Uses {
+				if vv := p.vars[name]; vv != nil && vv.Export {
+					obj.vars[name] = vv
+					break
+				}
 			}
 		}
 	}
@@ -597,7 +607,9 @@ func (obj *Package) Undefine(name string) {
 	name = strings.ToLower(name)
 	obj.mu.Lock()
 	if obj.funcs != nil {
+		own := false
 		if fi := obj.funcs[name]; fi != nil && fi.Pkg == obj {
+			own = true
 			for _, u := range obj.Users {
 				u.mu.Lock()
 				if u.funcs[name] == fi {
@@ -607,6 +619,16 @@ func (obj *Package) Undefine(name string) {
 			}
 		}
 		delete(obj.funcs, name)
+		if own {
+			// The package's own function hid what the packages it uses
+			// export under that name.
+			for _, p := range obj.Uses {
+				if fi := p.funcs[name]; fi != nil && fi.Export {
+					obj.funcs[name] = fi
+					break
+				}
+			}
+		}
 	}
 	obj.mu.Unlock()
 	pname := fmt.Sprintf("%s:%s", obj.Name, name)
